@@ -34,6 +34,11 @@ UBSAN_OPTIONS = "print_stacktrace=1:halt_on_error=1"
 TSAN_OPTIONS = "halt_on_error=0:second_deadlock_stack=1:report_signal_unsafe=0"
 
 
+# extra environment applied to every interpreter process started through Build.env() -- used by C02 to replay other
+# properties' whole workloads under forced-collection schedules
+AMBIENT_ENV = {}
+
+
 class HarnessError(Exception):
     """Something in the machinery (not the code under test) failed: exit code 2."""
 
@@ -82,8 +87,10 @@ class Build:
             e["UBSAN_OPTIONS"] = UBSAN_OPTIONS
         if self.variant == "tsan":
             e["TSAN_OPTIONS"] = TSAN_OPTIONS
+        if AMBIENT_ENV:
+            e.update({k: str(v) for k, v in AMBIENT_ENV.items()})
         if extra:
-            e.update({k: str(v) for k, v in extra.items()})
+            e.update({k: str(v) for k, v in extra.items() if not (k in AMBIENT_ENV and k != "CHIBI_VERIF_LOG")})
         return e
 
     def cmd(self, *args, heap=None):
